@@ -18,7 +18,9 @@ RULE = ("cases = groups of independent ops, each op one complete connection: `re
         "byte length, random longer ones with %00 %zz ? # ..); `url`/`dec` = Url(s) / Url::decode(s) over URL "
         "metacharacters; `file` = static file server with traversal attempts and Range/If-Modified-Since headers; "
         "valid requests (no body, Content-Length, chunked, keep-alive pairs, HTTP/1.0, OPTIONS first) cut at EVERY byte "
-        "position through srv/req/tcp for the dispatch clause; non-trivial = distinct case with a non-empty stream")
+        "position through srv/req/tcp for the dispatch clause; every percent escape %00-%ff in both letter cases; query strings with "
+        "escaped & = + inside keys and values; Content-Length that is not a length / together with chunked, each followed by a "
+        "pipelined request; `fmap` = GET of every short token path on the file-server fixture (status and length); non-trivial = distinct case with a non-empty stream")
 
 TRUSTED = ["tools/props/c09.py _frame(): lenient RFC 7230 framing parser used by the dispatch clause (no opinion where framing is a matter of interpretation: NUL in the head, folded or duplicate Content-Length/Transfer-Encoding, non-decimal lengths, chunk extensions/trailers)",
            "harness/c09.cpp watchdog (12 s kill) and SLOW flag (>5 s wall or >1.5 s CPU per connection) for the 'terminates promptly' clause",
@@ -37,36 +39,43 @@ ASSUMPTIONS = [
 TECHNIQUE = "Lean 4 theorems over an executable transcription of the reader (fuel-indexed loops, checked indices) + differential correspondence check through socketpairs / loopback TCP"
 
 LEVEL_TEXT = ("Proved in Lean 4 about the model that the driver runs, for ALL byte lists (the stream a peer sends before it closes, "
-              "cut anywhere): (no_dotdot, no_dotdot_served, no_dotdot_target, replace_removes_all, path_has_no_nul) the path handed to "
-              "the application never contains two consecutive dots and no NUL, for every stream and every request target, whatever "
-              "percent-encoding or repetition; (read_total, readHeaders_total, readBody_total, serve_total) HttpRequest::read and the "
-              "whole keep-alive loop of HttpServer::serve never index outside a string and end within |stream|+2 loop passes — every "
-              "pass consumes at least one byte or leaves (this is exactly what failed before fix c3aed7a); (url_total, urldecode_total, "
-              "requestline_total, target_total, query_total) Url::Url, Url::decode (= the stated percent-decoding function), the "
-              "request-line/target splits and Url::parseQuery never index outside their argument; (capitalized_case_invariant, "
-              "header_lookup_case_insensitive, header_set_get) header lookup is case-insensitive; (readLine_faithful, "
-              "requestline_faithful, headers_faithful, body_content_length_exact, read_faithful, read_faithful_chunked, "
-              "read_faithful_chunked_any_spelling, serve_faithful) read(serialize q ++ rest) = (q, rest) for every well-formed "
-              "request q with no body, a Content-Length body of any size, or a chunked body of any number of chunks (< 2^31 bytes "
-              "each), with any pipelined bytes left unread; and the keep-alive loop hands every pipelined well-formed request to the "
-              "application in order, exactly once; (dispatch_implies_complete, read_dispatch_complete, "
-              "cut_in_request_line_not_dispatched) conversely, for EVERY stream, every request the server loop hands to the "
-              "application is a complete framed request occupying a segment of the stream — request line with its LF, header block "
-              "up to the empty line, exactly Content-Length body bytes or a complete chunk sequence with its terminating chunk — with "
-              "exactly the method, target, protocol, headers and body of that segment; a stream the peer ends earlier is dropped. "
-              "The same clause is judged on the real server by an independent RFC 7230 framing parser (python) over every "
-              "req/srv/tcp stream of every run, with valid requests cut at every byte position. The model is tied to the code by the correspondence check on all observable fields, socket state, bytes "
-              "written back and bytes left unread (socketpair and loopback TCP, sequential and concurrent server).")
+              "cut anywhere). PATH: (no_dotdot, no_dotdot_served, no_dotdot_target, replace_removes_all, path_has_no_nul) the path "
+              "handed to the application never contains `..` nor NUL; (decoded_path_is_path_sent, percent_escape_value, "
+              "plain_target_unchanged, urldecode_total) it IS the percent-decoded target (%xy = 16x+y for hex digits of either case; "
+              "the decode function is stated) whenever that has no `..`; (served_file_under_root) the name serveFile appends to the "
+              "root is `/` + a string without `..`/NUL for every dispatched request, so the file lies under the root. TOTALITY: "
+              "(read_total, readHeaders_total, readBody_total, serve_total) HttpRequest::read and the keep-alive loop of "
+              "HttpServer::serve never index outside a string, end within |stream|+2 passes, and leave a SUFFIX of the unread "
+              "stream unread; (url_total, requestline_total, target_total, query_total) Url::Url, the request-line/target splits and "
+              "Url::parseQuery never index outside their argument. HEADERS: (header_lookup_any_case, capitalized_case_invariant, "
+              "header_lookup_case_insensitive, header_set_get) lookup ignores letter case altogether. QUERY: "
+              "(query_is_c15_parseQuery, query_roundtrip) query() computes C15's parseQuery on every NUL-free query string, hence "
+              "parseQuery(params d) = d for every sorted d with non-empty keys (escaped & = + % inside keys/values included). "
+              "FAITHFUL: (readLine_faithful, requestline_faithful, headers_faithful, body_content_length_exact, read_faithful, "
+              "read_faithful_chunked, read_faithful_chunked_any_spelling, serve_faithful) read(serialize q ++ rest) = (q, rest) for "
+              "well-formed q with no body, a Content-Length body or a chunked body, and the loop hands every pipelined well-formed "
+              "request over in order. DISPATCH: (dispatch_implies_complete, read_dispatch_complete, "
+              "dispatch_requires_valid_content_length, cut_in_request_line_not_dispatched) every request handed to the application is "
+              "a segment of the stream consisting of a full request line that splits into the method/target/protocol handed over, a "
+              "complete header block whose line-by-line fold IS the header dictionary handed over (HeaderBlockD), and the complete "
+              "body those headers announce, which is the body handed over: the chunk sequence when Transfer-Encoding is chunked "
+              "(Content-Length is then ignored), else exactly the decimal Content-Length (< 2^31; signed, non-digit or longer values "
+              "are never dispatched), else nothing. The same clause is judged on the real server by an independent RFC 7230 framing "
+              "parser over every req/srv/tcp stream of every run. The model is tied to the code by the correspondence check on all "
+              "observable fields, socket state, bytes written back, bytes left unread, and (fmap) status/length of the static file "
+              "answer for every short token path on a fixture tree.")
 
-LEVEL_NOTE = ("Trusted: Lean kernel, harness + watchdog, libc/OS as listed in assumptions. Partial: the hypotheses of the faithful-read theorems "
-              "that concern header values (no Expect, Content-Length = body length, Transfer-Encoding) are stated on the dictionary "
-              "`hdrDic headers` built by setHeader, not derived from the header list (the sorted-map lemma `other keys unaffected` is "
-              "not proved here; C02 proves the binary search). The RFC 3986 characterisation of the ?/# split and "
-              "the Dic `other keys unaffected` lemma are not theorems (K + reference only); String::replace/contains are modelled "
-              "directly as leftmost non-overlapping removal / scan for the constant \"..\" (tied by K on every target over "
-              "{. / %2e %2f %25 a} up to the stated length). Timeouts/select and partial arrival are runtime behaviour outside the "
-              "model (EOF only). Static file serving and Range parsing (HttpServer.cpp:100-184) are covered by a safety oracle only "
-              "(no byte from outside the root, legal status codes, ASan), not by the model; their arithmetic belongs to C10.")
+LEVEL_NOTE = ("Trusted: Lean kernel, harness + watchdog, the python framing parser, libc/OS as listed in assumptions. The query theorems "
+              "import C15's model/proofs (AslModel.Codec incl. the regenerated Gen/TablesGen, AslProofs.Query*). Not modelled and not "
+              "exercised: the Upgrade: websocket hand-off in HttpServer::serve (HttpServer.cpp ~60-65, _wsserver is never linked in the "
+              "harness; belongs to C11), CORS headers, socket timeouts/select and partial arrival (EOF only). Transfer-Encoding values "
+              "other than exactly `chunked` (e.g. `Chunked`, `gzip, chunked`) are treated by the code as not chunked; model and oracle "
+              "follow the code there. The chunk-terminating CRLF is not checked by the code (ChunkedWire says `two bytes`). "
+              "Range/If-Modified-Since handling of the file server is covered by the safety oracle of the `file` op only (no byte "
+              "from outside the root, legal status codes, ASan); plain GET mapping is model-checked by `fmap`. Partial: the header "
+              "hypotheses of the faithful-read theorems are stated on hdrDic (the fold), the sorted-map lemma `other keys unaffected` "
+              "is not proved here; String::replace/contains are modelled directly as leftmost removal / scan for `..` (tied by K on "
+              "every target over {. / %2e %2f %25 a} up to the stated length).")
 
 
 # ------------------------------------------------------------------ helpers
